@@ -412,6 +412,15 @@ def make_monitored_solver(problem, params, extra_callbacks=0):
                        active_set=None if res.active_set is None else np.copy(res.active_set), rcond=res.rcond)
             return res
 
+        def perform_iteration(self, x0=None, y0=None):
+            # recorded into a trace of its own (must not touch the trace of an earlier solve)
+            keep = self.trace
+            self.trace = Trace()
+            try:
+                return super().perform_iteration(x0, y0)
+            finally:
+                self.trace = keep
+
         def solve(self, x0=None, y0=None):
             self.trace = Trace()
             ACTIVE["trace"] = self.trace
